@@ -373,4 +373,277 @@ theorem mon_step (m : Mon) (hm : MInv m) (op : EOp) (hb : ∀ d now, op = .rx d 
             exact ⟨full, hget, rfl⟩
           · rw [List.getElem?_eq_none (by simp; omega)] at hi; cases hi
 
+
+/-! ## Protocol violations, acknowledgement deadline, window slots -/
+
+/-- the protocol-level view of a session state (what `Spec.mustReject` talks about) -/
+def viewOf (s : Session) : Spec.View :=
+  { lastSeq := s.recv.ackSeq, window := s.windowSize, unackedRx := s.recv.ackLevel,
+    lastSent := s.send.lastSent, outstanding := s.windowSize - s.send.level,
+    remaining := s.recv.remMsgLen }
+
+theorem commit_err_panic {r : RecvWindow} {h : Hdr} {pfx p : List Nat} {rem now : Nat} {e : Fail}
+    (he : r.commit h pfx p rem now = .error e) : e.isPanic = true := by
+  unfold RecvWindow.commit csub cadd at he
+  split at he
+  · rename_i e1 h1
+    split at h1
+    · cases h1
+    · cases h1; cases he; rfl
+  · split at he
+    · rename_i e2 h2
+      split at h2
+      · cases h2
+      · cases h2; cases he; rfl
+    · split at he
+      · rename_i e3 h3
+        split at h3
+        · split at h3
+          · cases h3
+          · cases h3; cases he; rfl
+        · cases h3
+      · cases he
+
+/-- a data segment passes the receive window only if all of this holds -/
+theorem acceptIncoming_ok_only {w : Nat} (hw : w ≤ 255) {r : RecvWindow} (hri : RInv w r) {h : Hdr} (hh : h.Wf)
+    {p : List Nat} {mtu now : Nat}
+    (hbad : r.checkDataIntegrity h p.length mtu = false ∨ r.level = 0 ∨
+      (h.getMsgLen.isSome = true ∧ r.remMsgLen > 0) ∨ r.startRem h.getMsgLen < p.length ∨
+      (h.fin = false ∧ p ≠ [] ∧ r.startRem h.getMsgLen - p.length = 0) ∨
+      (h.fin = true ∧ r.startRem h.getMsgLen - p.length > 0)) :
+    r.acceptIncoming h p mtu now = .error .invalidData := by
+  cases hr : r.acceptIncoming h p mtu now with
+  | ok r' =>
+    obtain ⟨h1, h2, h3, _, h5, h6, h7, _, _⟩ := acceptIncoming_inv hr
+    rcases hbad with hb | hb | hb | hb | hb | hb
+    · rw [h1] at hb; cases hb
+    · exact absurd hb h2
+    · exact absurd hb h3
+    · omega
+    · exact absurd hb h6
+    · exact absurd hb h7
+  | error e =>
+    -- every refusal of the receive window is `InvalidData` unless the commit panics, which needs level = 0
+    have c := recvAccept_clean w hw r hri h hh p mtu now
+    rw [hr] at c
+    simp only [Clean] at c
+    unfold RecvWindow.acceptIncoming at hr
+    repeat (split at hr; (cases hr; rfl))
+    have := commit_err_panic hr
+    rw [c] at this; cases this
+
+
+theorem integrity_seq {r : RecvWindow} {h : Hdr} {n mtu : Nat} (hc : r.checkDataIntegrity h n mtu = true) :
+    h.seqNum = (r.ackSeq + 1) % 256 := by
+  unfold RecvWindow.checkDataIntegrity at hc
+  repeat (split at hc; cases hc)
+  rename_i s hs
+  have : h.seqNum = s := by
+    unfold Hdr.getSeq at hs
+    split at hs
+    · cases hs; rfl
+    · cases hs
+  rw [this]
+  have := beq_iff_eq.mp hc
+  omega
+
+/-- **Hostile peer, clause "refused with an error"**: a data segment that violates the protocol in
+one of the ways named by the property (`Spec.mustReject` on the protocol-level view of the state:
+wrong sequence number, window overrun, acknowledgement of something that is not awaiting one,
+inconsistent length or flags) is refused with `InvalidData`; by `Except` the state is unchanged. -/
+theorem mustReject_refused (s : Session) (hs : SInv s) (h : Hdr) (hh : h.Wf) (hhs : h.hs = false)
+    (p : List Nat) (now : Nat) (hm : Spec.mustReject (viewOf s) h p = true) :
+    s.processRxData h p now = .error .invalidData := by
+  unfold Session.processRxData
+  have hle : s.send.level ≤ s.send.windowSize := by rw [hs.sendWs]; exact hs.sendLe
+  -- the acknowledgement check
+  by_cases hack : h.ack = true ∧ wrapSub s.send.lastSent h.ackNum ≥ s.windowSize - s.send.level
+  · have : s.send.checkIncoming h = .error .invalidData := by
+      unfold SendWindow.checkIncoming
+      simp only [Hdr.getAck, hack.1, if_true]
+      rw [csub_ok hle]
+      simp only
+      rw [hs.sendWs]
+      simp [hack.2]
+    rw [this]
+  · have c1 := sendCheck_clean s.send hle h
+    cases hc : s.send.checkIncoming h with
+    | error e =>
+      -- an error of the acknowledgement check is InvalidData
+      unfold SendWindow.checkIncoming at hc
+      split at hc
+      · cases hc
+      · rw [csub_ok hle] at hc
+        simp only at hc
+        split at hc
+        · cases hc; rfl
+        · cases hc
+    | ok u =>
+      simp only
+      have hgm : h.getMsgLen = if h.beg then some h.msgLen else none := by
+        simp [Hdr.getMsgLen, hhs]
+      have hbad : s.recv.acceptIncoming h p s.mtu now = .error .invalidData := by
+        apply acceptIncoming_ok_only hs.wsLe (rinv_of_sinv hs) hh
+        simp [Spec.mustReject, viewOf] at hm
+        have hsr : ∀ b : Bool, h.beg = b → s.recv.startRem (if b then some h.msgLen else none) =
+            (if b = true then h.msgLen else s.recv.remMsgLen) := by
+          intro b _; cases b <;> simp [RecvWindow.startRem]
+        rw [hgm]
+        rcases hm with ((((((hm | hm) | hm) | hm) | hm) | hm) | hm) | hm
+        · -- wrong sequence number
+          left
+          have hm' := of_decide_eq_true hm
+          cases hci : s.recv.checkDataIntegrity h p.length s.mtu with
+          | false => rfl
+          | true => exact absurd (integrity_seq hci) hm'
+        · -- window overrun
+          right; left
+          have := hs.recvSum; omega
+        · exfalso; apply hack; refine ⟨hm.1, ?_⟩
+          have := hm.2; have := hs.sendLe; omega
+        · right; right; left
+          simp [hm.1]; exact hm.2
+        · right; right; right; left
+          obtain ⟨⟨hb, hr0⟩, hpl⟩ := hm
+          have hr0' := of_decide_eq_true hr0
+          rw [hsr _ rfl]; simp [hb]; omega
+        · right; right; right; left
+          have hm' := of_decide_eq_true hm
+          rw [hsr _ rfl]; exact hm'
+        · right; right; right; right; right
+          refine ⟨hm.1, ?_⟩
+          rw [hsr _ rfl]; have := hm.2; omega
+        · right; right; right; right; left
+          obtain ⟨⟨hf, hpl⟩, heq⟩ := hm
+          have heq' := of_decide_eq_true heq
+          refine ⟨hf, ?_, ?_⟩
+          · intro hp; simp [hp] at hpl
+          · rw [hsr _ rfl]; omega
+      rw [hbad]
+
+
+/-- `is_ack_due` holds at the deadline whenever an acknowledgement is pending -/
+theorem isAckDue_at_deadline (s : Session) (t now : Nat) (hp : s.recv.pendingAck.isSome = true)
+    (ht : s.recv.receivedAt = some t) (hd : t + ackTimeoutSecs ≤ now) :
+    s.isAckDue now ackTimeoutSecs = true := by
+  unfold Session.isAckDue
+  simp [hp, ht]
+  right; exact decide_eq_true hd
+
+/-- an accepted data segment stamps the receive window with the current instant and leaves an
+acknowledgement to be sent -/
+theorem accepted_stamps {s : Session} {h : Hdr} {p : List Nat} {now : Nat} {s' : Session}
+    (hok : s.processRxData h p now = .ok s') :
+    s'.recv.receivedAt = some now ∧ s'.recv.ackLevel = s.recv.ackLevel + 1 ∧ s'.recv.ackSeq = h.seqNum := by
+  have hacc := processRxData_recv hok
+  obtain ⟨_, _, _, _, _, _, _, _, hc⟩ := acceptIncoming_inv hacc
+  obtain ⟨_, _, _, _, h5, h6, h7⟩ := commit_inv hc
+  exact ⟨h7, h6, h5⟩
+
+/-- a segment is emitted only while the send window has a free slot, and it takes exactly one;
+the acknowledgement it carries (if any) re-opens the receive window completely -/
+theorem prepTxData_emits {s : Session} {data : List Nat} {off now : Nat} {s' : Session} {seg : List Nat}
+    {off' : Nat} (hok : s.prepTxData data off now = .ok (s', seg, off')) (hseg : seg ≠ []) :
+    1 ≤ s.send.level ∧ s'.send.level + 1 = s.send.level ∧ s'.send.lastSent = (s.send.lastSent + 1) % 256 ∧
+    s'.send.windowSize = s.send.windowSize ∧
+    (s.recv.pendingAck.isSome = true → s'.recv.ackLevel = 0) := by
+  unfold Session.prepTxData at hok
+  by_cases hfull : s.send.isFull s.recv = true
+  · simp only [hfull, if_true] at hok
+    have := (Prod.mk.inj (Except.ok.inj hok)).2
+    exact absurd (Prod.mk.inj this).1.symm hseg
+  · simp only [hfull] at hok
+    have hl : 1 ≤ s.send.level := by
+      unfold SendWindow.isFull at hfull
+      simp at hfull
+      omega
+    cases hb : s.buildSegment data off with
+    | error e => rw [hb] at hok; cases hok
+    | ok hp =>
+      rw [hb] at hok
+      obtain ⟨h, p⟩ := hp
+      simp only at hok
+      by_cases hsz : (h.encode ++ p).length > txBufLen
+      · simp only [hsz, if_true] at hok; cases hok
+      · simp only [hsz] at hok
+        have hps : s.send.postSend now = .ok { windowSize := s.send.windowSize, level := s.send.level - 1, lastSent := (s.send.lastSent + 1) % 256, sentAt := some now } := by
+          unfold SendWindow.postSend; rw [csub_ok hl]
+        rw [hps] at hok
+        simp only [if_false] at hok
+        cases hr : s.recv.postSend with
+        | error e => rw [hr] at hok; cases hok
+        | ok r =>
+          rw [hr] at hok
+          have h3 := (Prod.mk.inj (Except.ok.inj hok)).1
+          rw [← h3]
+          refine ⟨hl, by simp only []; omega, rfl, rfl, ?_⟩
+          intro hp
+          unfold RecvWindow.postSend at hr
+          simp only [hp, if_true] at hr
+          unfold cadd at hr
+          by_cases hlt : s.recv.level + s.recv.ackLevel < 256
+          · simp only [hlt, if_true] at hr
+            have := Except.ok.inj hr
+            rw [← this]
+          · simp only [hlt] at hr
+            cases hr
+
+
+theorem encode_length_le (h : Hdr) : h.encode.length ≤ 6 ∧ 0 < h.encode.length := by
+  unfold Hdr.encode
+  simp only [List.length_append, List.length_cons, List.length_nil]
+  repeat' split
+  all_goals simp
+
+/-- when an acknowledgement is due and the send window has a free slot, the pump emits a segment
+that carries it (and the receive window is fully re-opened) -/
+theorem ack_emitted (e : End) (he : EInv e) (now : Nat)
+    (hdue : e.s.isAckDue now ackTimeoutSecs = true) (hl : 1 ≤ e.s.send.level) :
+    ∃ e' seg, e.ackStep now = .ok (e', seg) ∧ seg ≠ [] ∧ e'.s.recv.ackLevel = 0 ∧
+      (decodeHdr seg).toOption.map (fun hp => hp.1.getAck) = some (some e.s.recv.ackSeq) := by
+  have hp : e.s.recv.pendingAck.isSome = true := by
+    unfold Session.isAckDue at hdue
+    simp at hdue; simpa using hdue.1
+  have hal : 0 < e.s.recv.ackLevel ∧ e.s.recv.msgCt = 0 := by
+    unfold RecvWindow.pendingAck at hp
+    split at hp
+    · rename_i hc; simpa using hc
+    · simp at hp
+  have hpa : e.s.recv.pendingAck = some e.s.recv.ackSeq := by
+    unfold RecvWindow.pendingAck; simp [hal.1, hal.2]
+  have hnf : e.s.send.isFull e.s.recv = false := by
+    unfold SendWindow.isFull
+    have : e.s.send.level ≠ 0 := by omega
+    have : e.s.recv.ackLevel ≠ 0 := by omega
+    simp [*]
+  have hs := he.s
+  obtain ⟨r', hr', hri, _⟩ := recvPostSend_ok e.s.windowSize hs.wsLe e.s.recv (rinv_of_sinv hs)
+  have hr0 : r'.ackLevel = 0 := by
+    unfold RecvWindow.postSend at hr'
+    simp only [hp, if_true] at hr'
+    have h1 := hs.recvSum
+    rw [cadd_ok (by have := hs.wsLe; omega)] at hr'
+    have := Except.ok.inj hr'
+    rw [← this]
+  unfold End.ackStep
+  simp only [hdue, if_true]
+  unfold Session.prepTxData
+  simp only [hnf, Bool.false_eq_true, if_false]
+  unfold Session.buildSegment
+  simp only [List.isEmpty_nil, Bool.not_true, Bool.false_eq_true, if_false, List.append_nil]
+  have hlen := encode_length_le e.s.baseHdr
+  have hsz : ¬ (e.s.baseHdr.encode.length > txBufLen) := by
+    have : txBufLen = 512 := rfl
+    omega
+  simp only [hsz, if_false]
+  unfold SendWindow.postSend
+  rw [csub_ok hl]
+  simp only
+  rw [hr']
+  refine ⟨_, _, rfl, ?_, hr0, ?_⟩
+  · intro h0
+    have := hlen.2
+    rw [h0] at this; simp at this
+  · simp [Session.baseHdr, hpa, Hdr.encode, Hdr.flagsByte, decodeHdr, bit, takeIf, Except.toOption, Hdr.getAck]
+
 end Btp
